@@ -11,13 +11,14 @@ use std::cell::RefCell;
 use std::rc::Rc;
 
 struct Out {
+    names: Vec<String>, // tag-name accessor inconsistencies (handler set 6)
     sink: Vec<u8>,
     texts: Vec<String>, // merged text nodes seen by the first text handler
     cur: String,
 }
 
 fn run(enc: &'static encoding_rs::Encoding, input: &[u8], cuts: &[usize], hs: u8) -> Result<Out, String> {
-    let out = Rc::new(RefCell::new(Out { sink: vec![], texts: vec![], cur: String::new() }));
+    let out = Rc::new(RefCell::new(Out { names: vec![], sink: vec![], texts: vec![], cur: String::new() }));
     let o1 = out.clone();
     let o2 = out.clone();
     let settings = Settings::new()
@@ -41,6 +42,25 @@ fn run(enc: &'static encoding_rs::Encoding, input: &[u8], cuts: &[usize], hs: u8
             .append_element_content_handler(element!("*", |_e| Ok(())))
             .append_element_content_handler(text!("*", text_log)),
         4 => settings.append_element_content_handler(text!("p", text_log)),
+        6 => {
+            // tag-name accessors: the lower-cased name is the ASCII-lower-cased DECODED name, for start and end tags
+            let o3 = out.clone();
+            settings.append_element_content_handler(element!("*", move |e| {
+                let (n, pc) = (e.tag_name(), e.tag_name_preserve_case());
+                if n != pc.to_ascii_lowercase() {
+                    o3.borrow_mut().names.push(format!("start tag_name()={n:?} preserve_case={pc:?}"));
+                }
+                let o4 = o3.clone();
+                let _ = e.on_end_tag(lol_html::end_tag!(move |t| {
+                    let (n, pc) = (t.name(), t.name_preserve_case());
+                    if n != pc.to_ascii_lowercase() {
+                        o4.borrow_mut().names.push(format!("end name()={n:?} preserve_case={pc:?}"));
+                    }
+                    Ok(())
+                }));
+                Ok(())
+            }))
+        }
         _ => settings.append_element_content_handler(element!("b", |e| {
             let _ = e.tag_name();
             Ok(())
@@ -96,6 +116,9 @@ pub fn run_lane(line: &str) -> String {
     }
     if single.sink != input {
         oracle.push_str(&format!(" ||ORACLE:C01:passthrough-encoded-single {} handlers={hs}: sink != input in one write", enc.name()));
+    }
+    if let Some(m) = chunked.names.first().or(single.names.first()) {
+        oracle.push_str(&format!(" ||ORACLE:C13:tag-name-accessors-disagree {} {m}", enc.name()));
     }
     if chunked.texts != single.texts {
         oracle.push_str(&format!(
